@@ -53,7 +53,7 @@ def check(run: Run) -> None:
         raise AnalysisError("resolve_syntatic_sugar no longer contains one transformer")
     cls = classes[0]
     for need in ("resolve_generator", "visit_ListComp", "visit_GeneratorExp", "visit_Call"):
-        if need not in cls.methods:
+        if need not in cls.methods and not (need == "resolve_generator" and need in m.modules[mod].functions):
             raise AnalysisError(f"anchor vanished: syntax_transformer.{need}")
     # the constructor binder: a method of the transformer, or (it does not use self) a function beside it
     cd = cls.methods.get("convert_call_to_dict") or m.modules[mod].functions.get("convert_call_to_dict")
@@ -62,10 +62,11 @@ def check(run: Run) -> None:
     cd_off = 1 if cd.cls is not None else 0
 
     # ---------------- R1
-    rg = cls.methods["resolve_generator"]
+    # the lowering: a method of the transformer, or (it does not use self) a function beside it
+    rg = cls.methods.get("resolve_generator") or m.modules[mod].functions["resolve_generator"]
     spec = spec_function(m, SPEC_RESOLVE, mod, None, parent_func=outer)
     spec.cls = cls
-    got = canon(ctx.analysis(rg).return_term(), rg.pos_params)
+    got = canon(ctx.analysis(rg).return_term(), (rg.pos_params if rg.cls is not None else ["<no self>"] + rg.pos_params))
     want = canon(ctx.analysis(spec).return_term(), spec.pos_params)
     from ..fusion import _first_diff
 
@@ -75,7 +76,7 @@ def check(run: Run) -> None:
     from ..lib import unit_loops
 
     ul = unit_loops(ctx, m, rg)
-    gp = ("param", rg.pos_params[2])
+    gp = ("param", rg.pos_params[2 if rg.cls is not None else 1])
     outer_l = [(g_, lp, it) for g_, lp, it in ul if it == gp or (it[0] == "app" and it[2] == (gp,)) or (it[0] == "slice" and it[1] == gp)]
     inner_l = [(g_, lp, it) for g_, lp, it in ul if not any(lp is x[1] for x in outer_l)]
     ok_o = len(outer_l) == 1 and isinstance(outer_l[0][1].iter, ast.Call) and isinstance(outer_l[0][1].iter.func, ast.Name) and outer_l[0][1].iter.func.id == "reversed"
@@ -176,6 +177,11 @@ def check(run: Run) -> None:
     rt = _len_norm(_seq_norm(strip_sites(fc.return_term())))
     d = dict(rt[2]) if rt[0] == "new" and rt[1] == "Dict" else {}
     keys, values = d.get("keys"), d.get("values")
+    for kv_ in (keys, values):
+        # [item.key for item in items]: the entries are kept as one list of (private) records, not as the two parallel
+        # lists this rule reads the binding order from
+        if kv_ is not None and kv_[0] == "comp" and kv_[2][0] == "attr" and kv_[2][1][0] == "elem" and contains(kv_[3][0][0] if kv_[3] else ("top",), lambda q: q[0] == "new" and isinstance(q[1], str) and ":" in q[1]):
+            raise AnalysisError("convert_call_to_dict keeps the dictionary's entries as a list of record objects and projects keys and values out of it: the order in which fields are bound cannot be read from that shape")
     n_pos = ("app", ("global", "builtins.len"), (("attr", ap, "args"),), ())
     # values: a *copy* of the positional arguments, then the keyword values of the remaining names, in that order
     fresh_args = ("app", ("global", "builtins.list"), (("attr", ap, "args"),), ())
